@@ -27,6 +27,44 @@ GB = 1 << 30
 # harness metadata
 # ------------------------------------------------------------------------------------------------
 
+_FN_CACHE = {}
+
+
+def _fn_bodies(path):
+    """top-level fn name -> body text of a harness file (brace matched on masked source)"""
+    if path in _FN_CACHE:
+        return _FN_CACHE[path]
+    import rsrc
+    src = open(path).read()
+    masked = rsrc.mask(src)
+    out = {}
+    for m in re.finditer(r"^(?:pub(?:\(crate\))?\s+)?fn\s+(\w+)", masked, flags=re.M):
+        ob = masked.find("{", m.end())
+        try:
+            cb = rsrc.match_brace(masked, ob)
+        except ValueError:
+            continue
+        out[m.group(1)] = src[ob:cb + 1]
+    _FN_CACHE[path] = out
+    return out
+
+
+def harness_text(path, name, depth=3):
+    fns = _fn_bodies(path)
+    seen, todo, text = set(), [(name, 0)], []
+    while todo:
+        n, d = todo.pop()
+        if n in seen or n not in fns:
+            continue
+        seen.add(n)
+        text.append(fns[n])
+        if d < depth:
+            for callee in set(re.findall(r"\b(\w+)\s*(?:::<[^>]*>)?\s*\(", fns[n])):
+                if callee in fns and callee not in seen:
+                    todo.append((callee, d + 1))
+    return "\n".join(text)
+
+
 def scan_harnesses():
     """Parse `//@H key=val ...` lines in every harness file of the ledger."""
     out = []
@@ -48,9 +86,8 @@ def scan_harnesses():
                     break
             if not name:
                 raise RuntimeError(f"{path}:{i + 1}: //@H without fn")
-            # named obligations / covers declared in the body (until the next //@H or EOF)
-            end = next((k for k in range(i + 1, len(lines)) if lines[k].strip().startswith("//@H")), len(lines))
-            body = "\n".join(lines[i:end])
+            # named obligations / covers declared in the harness body and in the helper fns it calls
+            body = harness_text(path, name)
             meta.update(
                 name=name,
                 unit=u["id"],
@@ -60,7 +97,7 @@ def scan_harnesses():
                 cap=int(meta["cap"]),
                 named=re.findall(r'vpost!\(\s*"([^"]+)"', body),
                 covers=re.findall(r'vcover!\(\s*"([^"]+)"', body),
-                stubs=re.findall(r"kani::stub(?:_verified)?\(([^\n]*)\)\)?\]", body),
+                stubs=re.findall(r"kani::(stub(?:_verified)?\([^\n]*?\))\)\]", "\n".join(lines[i:j + 1])),
                 file=u["harness"],
                 line=i + 1,
             )
